@@ -152,3 +152,8 @@ T("c14-total-needed-local", ["C14"], WAL, "            if collected_value >= val
 T("c04-flip-work-compare", ["C04", "C03"], CS, "        elif block.get_total_work() > self.block_by_hash[self.current_chain_hash].get_total_work():", "        elif self.block_by_hash[self.current_chain_hash].get_total_work() < block.get_total_work():")
 T("c04-if-order", ["C04", "C03"], CS, "        if self.current_chain_hash is None or self.current_chain_hash == block.previous_block_hash:", "        if block.header.summary.previous_block_hash == self.current_chain_hash or self.current_chain_hash is None:")
 T("c03-inline-locals", ["C03", "C04"], CS, "        block_hash = block.hash()\n\n        block_by_hash: immutables.Map[bytes, Block] = self.block_by_hash.set(block_hash, block)", "        block_hash = block.hash()\n        bh = block_hash\n\n        block_by_hash: immutables.Map[bytes, Block] = self.block_by_hash.set(bh, block)")
+
+T("c11-flip-guard", ["C11"], RP, "        if self.len is not None and self.len <= len(self.buffer):", "        if self.len is not None and len(self.buffer) >= self.len:")
+T("c11-magic-literal", ["C11"], RP, "            if magic != MAGIC:", "            if magic != b'MAJI':")
+T("c11-buffer-concat", ["C11"], RP, "        self.buffer += data\n", "        self.buffer = self.buffer + data\n")
+T("c11-guard-order", ["C11"], RP, "        if not self.magic_read and len(self.buffer) >= 4:", "        if len(self.buffer) >= 4 and not self.magic_read:")
